@@ -135,6 +135,7 @@ def run_property(ctx, which, props_file):
         sim_expect.run(ctx, common.preflight(), which, 40000 if thorough else 4000)
     if which == 'C04':
         async_outcomes_oracle(ctx, 300 if thorough else 40)
+        real_outcomes_oracle(ctx, 400 if thorough else 60)
     if which == 'C01':
         unicode_pipe_oracle(ctx, 400 if thorough else 40)
         real_transport_conservation(ctx, (0, 100, 6000, 70000) if thorough else (100, 6000), (2000, 64, 1, 100000) if thorough else (2000, 64))
@@ -349,8 +350,13 @@ def unicode_pipe_oracle(ctx, n):
                 try:
                     f.expect_exact(pat, timeout=0.05)
                     handed += f.before + f.after
+                    pending = f.buffer
                 except pexpect.TIMEOUT:
-                    pass
+                    pending = f.before           # after a TIMEOUT the pending text is `before` (`buffer` may be a trimmed tail of it)
+                if rng.random() < 0.4:
+                    # the application edits the pending text between two reads (here: puts it back as it is): only the pending
+                    # TEXT is replaced - a character of which only the first bytes have arrived is still to be completed
+                    f.buffer = pending
             os.close(w)
             w = None
             f.expect(pexpect.EOF, timeout=1)
@@ -395,10 +401,11 @@ while i < n:
                 k = ctx.rng.choice([7, 997, 4096, 70000])
                 calls = ctx.rng.randint(0, 4)
                 wait_first = ctx.rng.random() < 0.5          # let the output pile up before the first call
+                up = ctx.rng.random() < 0.5                  # wait with poll() instead of select()
                 th = None
                 try:
                     if transport == 'pty':
-                        c = pexpect.spawn(sys.executable, ['-c', 'import tty,sys; tty.setraw(1)\n' + gen, str(n), str(k)], maxread=maxread, timeout=60)
+                        c = pexpect.spawn(sys.executable, ['-c', 'import tty,sys; tty.setraw(1)\n' + gen, str(n), str(k)], maxread=maxread, timeout=60, use_poll=up)
                     elif transport == 'popen':
                         c = popen_spawn.PopenSpawn([sys.executable, '-c', gen, str(n), str(k)], maxread=maxread, timeout=60)
                     elif transport == 'fd':
@@ -410,12 +417,12 @@ while i < n:
                             os.close(w)
                         th = threading.Thread(target=feed)
                         th.start()
-                        c = fdpexpect.fdspawn(r, maxread=maxread, timeout=60)
+                        c = fdpexpect.fdspawn(r, maxread=maxread, timeout=60, use_poll=up)
                     else:
                         a, b = socket.socketpair()
                         th = threading.Thread(target=lambda b=b, want=want: (b.sendall(want), b.close()))
                         th.start()
-                        c = socket_pexpect.SocketSpawn(a, maxread=maxread, timeout=60)
+                        c = socket_pexpect.SocketSpawn(a, maxread=maxread, timeout=60, use_poll=up)
                     if wait_first:
                         import time
                         time.sleep(0.3)
@@ -435,13 +442,13 @@ while i < n:
                     else:
                         c.close()
                 except Exception as e:
-                    ctx.hit('C01/real-' + transport, '%s transport, %d bytes, maxread %d: %r' % (transport, n, maxread, e), {'n': n, 'maxread': maxread, 'piece': k})
+                    ctx.hit('C01/real-' + transport, '%s transport (use_poll=%s), %d bytes, maxread %d: %r' % (transport, up, n, maxread, e), {'n': n, 'maxread': maxread, 'piece': k, 'use_poll': up})
                     return
                 tried += 1
                 if got != want:
                     j = next((x for x in range(min(len(got), len(want))) if got[x] != want[x]), min(len(got), len(want)))
                     ctx.hit('C01/real-' + transport, '%s transport: the peer wrote %d bytes in pieces of %d; %d expect_exact calls + expect(EOF) (maxread %d) handed back %d bytes; first difference at offset %d'
-                            % (transport, n, k, calls, maxread, len(got), j), {'transport': transport, 'n': n, 'piece': k, 'maxread': maxread, 'calls': calls, 'wait_first': wait_first})
+                            % (transport, n, k, calls, maxread, len(got), j), {'transport': transport, 'n': n, 'piece': k, 'maxread': maxread, 'calls': calls, 'wait_first': wait_first, 'use_poll': up})
                     return
     ctx.oracle_stats['real_transport_streams'] = tried
 
@@ -550,3 +557,91 @@ def async_outcomes_oracle(ctx, n):
                     {'transport': transport, 'data': list(data), 'split': split, 'ending': ending, 'listed': listed})
             return
     ctx.oracle_stats['awaited_outcomes'] = tried
+
+
+def real_outcomes_oracle(ctx, n):
+    """C04 with blocking calls on real pipes, sockets and ptys, waiting with select() or with poll(): the stream ends (or goes
+    silent) before any pattern matches -> index of the listed marker or else that exception, before = all pending text, and after
+    EOF every further call reports EOF again"""
+    import socket
+    from pexpect import fdpexpect, socket_pexpect
+    pexpect = common.preflight()
+    rng = ctx.rng
+    tried = 0
+    for it in range(n):
+        transport = rng.choice(['pipe', 'socket', 'fdsocket', 'pty'])
+        up = rng.random() < 0.5
+        data = bytes(rng.choice(b'abc') for _ in range(rng.randint(0, 12)))
+        ending = rng.choice(['eof', 'eof', 'timeout'])
+        listed = rng.random() < 0.5
+        marker = pexpect.EOF if ending == 'eof' else pexpect.TIMEOUT
+        pats = [b'zz'] + ([marker] if listed else [])
+        closers = []
+        if transport == 'pipe':
+            r, w = os.pipe()
+            c = fdpexpect.fdspawn(r, timeout=5, use_poll=up)
+            os.write(w, data) if data else None
+            if ending == 'eof':
+                os.close(w)
+            else:
+                closers.append(lambda: os.close(w))
+            closers.append(lambda: os.close(r))
+        elif transport == 'pty':
+            c = pexpect.spawn('/bin/sh', ['-c', 'stty raw -echo; printf READY; exec %s' % ('head -c %d' % len(data) if ending == 'eof' else 'cat')], timeout=5, echo=False, use_poll=up)
+            c.expect_exact(b'READY')
+            c.send(data) if data else None
+            closers.append(lambda: c.close(force=True))
+        else:
+            a, b = socket.socketpair()
+            c = socket_pexpect.SocketSpawn(a, timeout=5, use_poll=up) if transport == 'socket' else fdpexpect.fdspawn(a.fileno(), timeout=5, use_poll=up)
+            b.sendall(data) if data else None
+            if ending == 'eof':
+                b.close()
+            else:
+                closers.append(lambda: b.close())
+            closers.append(lambda: a.close())
+        out = {}
+        try:
+            try:
+                out['idx'] = c.expect_exact(list(pats), timeout=10 if ending == 'eof' else 0.2)
+            except pexpect.EOF:
+                out['exc'] = 'EOF'
+            except pexpect.TIMEOUT:
+                out['exc'] = 'TIMEOUT'
+            except Exception as e:
+                out['exc'] = repr(e)
+            before, after = c.before, c.after
+            again = None
+            if ending == 'eof':
+                try:
+                    c.expect_exact([b'zz'], timeout=1)
+                    again = 'matched'
+                except pexpect.EOF:
+                    again = 'EOF' if c.before == b'' else 'EOF with before=%r' % c.before
+                except Exception as e:
+                    again = type(e).__name__
+        finally:
+            for f in closers:
+                try:
+                    f()
+                except Exception:
+                    pass
+        tried += 1
+        name = marker.__name__
+        bad = None
+        if listed and out.get('idx') != pats.index(marker):
+            bad = 'expected index %d (the listed %s), got %r' % (pats.index(marker), name, out)
+        elif not listed and out.get('exc') != name:
+            bad = 'expected the %s exception, got %r' % (name, out)
+        elif after is not marker:
+            bad = 'after is %r, expected the %s class' % (after, name)
+        elif before != data:
+            bad = 'before is %r, but the pending text was %r' % (before, data)
+        elif ending == 'eof' and again != 'EOF':
+            bad = 'a further call after EOF gave %r' % (again,)
+        if bad:
+            ctx.hit('C04/real-outcome', 'expect_exact(%r) on a %s (use_poll=%s) whose stream %s after %r: %s'
+                    % ([p if isinstance(p, bytes) else p.__name__ for p in pats], transport, up, 'ended' if ending == 'eof' else 'went silent', data, bad),
+                    {'transport': transport, 'data': list(data), 'ending': ending, 'listed': listed, 'use_poll': up})
+            return
+    ctx.oracle_stats['real_outcomes'] = tried
